@@ -62,4 +62,19 @@ META = {
         "stub": STUB_WS + ["remote endpoint in raw-peer worlds: scripted octet-level peer"],
         "design_ref": "DESIGN.md section 4, C05",
     },
+    "C17": {
+        "title": "Silent peers are dropped on time, responsive peers never",
+        "budgets": {"quick": (160000, 60), "thorough": (4000000, 1200)},
+        "variants": ALL_VARIANTS,
+        "rule": ("one run = one virtual time line: drawn role, open/close/server-drop timeouts, auto-ping interval/"
+                 "timeout/size/restart-on-traffic, fractional connection start (timer flooring); each peer reaction "
+                 "(handshake remainder, pong or data after each auto-ping, close reply, TCP drop) is placed at "
+                 "deadline+delta, delta in {never,-2,-1.001,-1,-0.5,-0.001,0,+0.001,+1}; library timers and peer events "
+                 "run in virtual-time order, ties decided by the scheduler; optional wall-clock jumps; then 1000 quiet "
+                 "seconds after close; non-trivial = at least one deadline armed; distinct = hash of the "
+                 "(event kind, state, virtual time) sequence"),
+        "real": REAL_WS,
+        "stub": STUB_WS + ["remote endpoint: scripted octet-level peer on the virtual time line"],
+        "design_ref": "DESIGN.md section 4, C17",
+    },
 }
